@@ -5,6 +5,7 @@ import (
 	"encoding/binary"
 	"fmt"
 	"io"
+	"os"
 	"testing"
 
 	"github.com/syndtr/goleveldb/leveldb"
@@ -81,9 +82,17 @@ func runRecover(c *RCase) (st rStats, err error) {
 		return st, err
 	}
 	levels := map[int]bool{}
+	liveBefore := ""
 	for _, t := range e.DB.VerifTables() {
 		levels[t.Level] = true
 		st.tables++
+		liveBefore += fmt.Sprintf(" L%d#%d", t.Level, t.Num)
+	}
+	filesBefore := fmt.Sprint(e.FS.Files())
+	refsBefore := fmt.Sprint(e.DB.VerifFileRefs())
+	// the premise of the property is a clean, settled shutdown: nothing but live files in storage
+	if err := e.CheckFileSet("settled state before shutdown"); err != nil {
+		return st, fmt.Errorf("%v (live tables:%s; files: %s; table references: %s)", err, liveBefore, filesBefore, refsBefore)
 	}
 	st.levels = len(levels)
 	if err := e.Close(); err != nil {
@@ -212,7 +221,27 @@ func runRecover(c *RCase) (st rStats, err error) {
 	if len(damaged) == 0 {
 		// exactly the same logical contents
 		if err := e.Sweep(); err != nil {
-			return st, fmt.Errorf("after Recover (manifest %s): %v", c.Manifest, err)
+			if os.Getenv("VERIF_DEBUG") != "" {
+				fmt.Println("LIVE-BEFORE-CLOSE", liveBefore, "FILES", filesBefore, "REFS", refsBefore)
+				for k, es := range phys {
+					for _, en := range es {
+						fmt.Printf("PHYS key=%q seq=%d del=%v table=%d block=%d vlen=%d\n", k, en.seq, en.del, en.table, en.block, len(en.val))
+					}
+				}
+				for _, fd := range fs.Files() {
+					n, _, _, _ := fs.FileInfo(fd)
+					fmt.Printf("FILE %v %d bytes\n", fd, n)
+				}
+				for _, tb := range e.DB.VerifTables() {
+					fmt.Printf("TABLE L%d #%d %q..%q\n", tb.Level, tb.Num, tb.IMin, tb.IMax)
+				}
+				for i, l := range fs.LogFrom(0) {
+					if i > fs.LogLen()-40 {
+						fmt.Printf("LOG %d %s %s-%d %d\n", i, l.Kind, l.FType, l.Num, l.N)
+					}
+				}
+			}
+			return st, fmt.Errorf("after Recover (manifest %s): %v (before shutdown: live tables:%s; files: %s; table references: %s)", c.Manifest, err, liveBefore, filesBefore, refsBefore)
 		}
 	} else {
 		// entry in an undamaged block with no newer version => returned; nothing never written
